@@ -15,7 +15,8 @@ RULE = ("for each scenario (operation x small tree with hostile names x text/JSO
         "kills is repeated with the default thread pool. Oracle = state invariant on the resulting tree: every path the "
         "fault-free run processes still has its bytes at its path, or (kill / failed roll-back only) under a temp sibling "
         "P.<24 alnum>, or is a complete link/clone/copy of identical bytes (for move: at the target); retained files are "
-        "untouched; nothing else changed; after a failure without kill the path is restored, a warning is logged and "
+        "untouched; nothing else changed (including files that already were in the move target, which in half of the move "
+        "scenarios occupy the destination of one of the files); after a failure without kill the path is restored, a warning is logged and "
         "'Processed N' equals what the tree shows. non-trivial = case whose planned fault fired; a case whose fault "
         "never fired is inconclusive")
 
@@ -49,12 +50,33 @@ def scenario(seed, si):
     return op, {"entries": entries, "roots": ["r0"]}, fmt
 
 
-def restore(backup, troot, target):
+def blockers_for(seed, si, op, spec, troot, target):
+    """For half of the move scenarios: somebody else's file already sits at the place in the target directory where
+    one of the files to be moved would go (that move has to be refused; the file that was there must survive)."""
+    if op != "move" or (si // len(OPS)) % 2 == 0:
+        return []
+    r = common.rng_for(seed, "C05blk", si)
+    fl = [e for e in spec["entries"] if e["t"] == "f" and e["fam"] != 999]
+    victim = r.choice(fl[1:])
+    dest = fse(target) + fse(os.path.join(troot, victim["p"]))
+    data = b"pre-existing file in the move target %d" % si if r.random() < 0.5 else tree.content(victim["fam"], victim["len"], ())
+    return [(dest, data)]
+
+
+def put_blockers(blockers):
+    for dest, data in blockers:
+        os.makedirs(os.path.dirname(dest), exist_ok=True)
+        with open(dest, "wb") as f:
+            f.write(data)
+
+
+def restore(backup, troot, target, blockers=()):
     common.rmtree(troot)
     subprocess.run(["cp", "-a", backup, troot], check=True)
     if target:
         common.rmtree(target)
         os.makedirs(target)
+        put_blockers(blockers)
 
 
 class Scn:
@@ -73,6 +95,8 @@ def prepare(seed, si, scratch):
     s.target = os.path.join(s.d, "moved") if s.op == "move" else None
     if s.target:
         os.makedirs(s.target)
+    s.blockers = blockers_for(seed, si, s.op, s.spec, s.troot, s.target) if s.target else []
+    put_blockers(s.blockers)
     from .. import gm
     res, argv = gm.run_group({"hash_fn": "metro"}, ["r0"], s.troot, s.home, fmt=s.fmt)
     if res.rc != 0:
@@ -95,9 +119,10 @@ def prepare(seed, si, scratch):
         s.processed = sorted({o[1] for o in lops if not dd.TEMP_SUFFIX.search(o[1])})
     else:
         s.processed = sorted({o[1] for o in lops})
+    s.processed = [p for p in s.processed if p.startswith(fse(s.troot) + b"/")]
     s.retained = sorted({p for g in s.rep.groups for p in g["files"]} - set(s.processed))
     s.rec_summary = dd.summary(rres.err_text())
-    restore(s.backup, s.troot, s.target)
+    restore(s.backup, s.troot, s.target, s.blockers)
     s.before = inventory.take(s.troot)
     return s
 
@@ -131,7 +156,7 @@ def run_case(arg):
             if idx % nchunks != chunk:
                 continue
             out.append(_one(s, spec, si))
-            restore(s.backup, s.troot, s.target)
+            restore(s.backup, s.troot, s.target, s.blockers)
         return out
     finally:
         scratch.cleanup()
@@ -157,6 +182,7 @@ def _one(s, spec, si):
         os.unlink(log)
     env = shimlog.shim_env(log, [s.troot] + ([s.target] if s.target else []), plan, ficlone=(s.op == "dedupe"))
     before = inventory.take(s.troot)
+    tbefore = inventory.take(s.target) if s.target else {}
     threads = None if kind == "kill-parallel" else 1
     rres, rargv = dd.run_dedupe(s.op, {}, s.report, s.troot, s.home, target=s.target, extra_env=env, threads=threads, timeout=60)
     ev, fired, junk = shimlog.parse(log)
@@ -183,6 +209,12 @@ def _one(s, spec, si):
         return violation("C05:%s:panicked" % sigbase, rres.err_text()[-300:], witness)
 
     # --- state invariant -------------------------------------------------------------------
+    for T, rec in tbefore.items():
+        if rec["type"] != "d" and (T not in tafter or not inventory.same_entry(rec, tafter[T])):
+            witness["target_entry"] = {"path": fsd(T), "before": repr(rec), "after": repr(tafter.get(T))}
+            return violation("C05:%s:pre-existing-target-file-touched" % sigbase,
+                             "a file that was in the move target before the run was removed or changed: %s" % fsd(T), witness,
+                             sig=(s.op, kind, callname))
     temps = [p for p in after if inventory.is_temp_sibling(p) and p not in before]
     for P in s.processed:
         d = before[P]["sha"]
@@ -255,7 +287,7 @@ def _one(s, spec, si):
     sig = (s.op, s.fmt, si, kind, k, en, j) if fired else None
     return ok(sig, {"op": s.op, "fault": kind, "k": k, "errno": en, "call": callname} if k < 3 and si < 2 else None,
               {"faults_fired": len(fired), "double_faults_fired": 1 if second_fired else 0, "kills": 1 if killed else 0, "ops": [s.op], "faulted_calls": [callname],
-               "temp_sibling_states": 1 if temps else 0})
+               "temp_sibling_states": 1 if temps else 0, "runs_with_occupied_move_target": 1 if s.blockers else 0})
 
 
 def main(tier, seed, cases=None):
